@@ -64,6 +64,10 @@ impl intl_memoizer::Memoizable for TagFormatter {
     type Args = (String,);
     type Error = ();
     fn construct(_lang: unic_langid::LanguageIdentifier, args: Self::Args) -> Result<Self, Self::Error> {
+        if args.0.starts_with("slow") {
+            // a slow constructor: other threads arrive while this one is being built
+            std::thread::sleep(std::time::Duration::from_millis(3));
+        }
         if args.0.starts_with("bad") {
             Err(())
         } else {
@@ -87,7 +91,13 @@ impl FluentType for MemoCustom {
         intls: &intl_memoizer::concurrent::IntlLangMemoizer,
     ) -> Cow<'static, str> {
         intls
-            .with_try_get::<TagFormatter, _, _>((self.0.clone(),), |f| f.0.clone())
+            .with_try_get::<TagFormatter, _, _>((self.0.clone(),), |f| {
+                if f.0.starts_with("[lazy") {
+                    // a slow format callback: the formatter is still in use while other threads extend the cache
+                    std::thread::sleep(std::time::Duration::from_millis(3));
+                }
+                f.0.clone()
+            })
             .unwrap_or_else(|_| "!err".to_string())
             .into()
     }
